@@ -961,6 +961,13 @@ func callBuiltin(caller *frame, callpos token.Pos, fn *ssa.Builtin, args []value
 			return arg0
 		}
 		// append([]T, ...[]T) []T
+		if RD.on && caller != nil {
+			dst, src := args[0].([]value), args[1].([]value)
+			RD.raceSlice(caller, src, 0, len(src), false, nil)
+			if cap(dst)-len(dst) >= len(src) {
+				RD.raceSlice(caller, dst, len(dst), len(src), true, nil) // in place: the shared backing array is written
+			}
+		}
 		return append(args[0].([]value), args[1].([]value)...)
 
 	case "copy": // copy([]T, []T) int or copy([]byte, string) int
@@ -968,6 +975,15 @@ func callBuiltin(caller *frame, callpos token.Pos, fn *ssa.Builtin, args []value
 		if _, ok := src.(string); ok {
 			params := fn.Type().(*types.Signature).Params()
 			src = conv(params.At(0).Type(), params.At(1).Type(), src)
+		}
+		if RD.on && caller != nil {
+			dst, sv := args[0].([]value), src.([]value)
+			n := len(dst)
+			if len(sv) < n {
+				n = len(sv)
+			}
+			RD.raceSlice(caller, sv, 0, n, false, nil)
+			RD.raceSlice(caller, dst, 0, n, true, nil)
 		}
 		return copy(args[0].([]value), src.([]value))
 
@@ -1003,6 +1019,9 @@ func callBuiltin(caller *frame, callpos token.Pos, fn *ssa.Builtin, args []value
 	case "delete": // delete(map[K]value, K)
 		switch m := args[0].(type) {
 		case *omap:
+			if RD.on && caller != nil {
+				RD.raceObj(caller, m, true, nil)
+			}
 			m.delete(args[1])
 		default:
 			panic(fmt.Sprintf("illegal map type: %T", m))
